@@ -45,7 +45,7 @@ def run_c17(case, eng, res):
         other = bridge_mod.SwitcherBridge(lambda dev: None, list(ports))  # a second, never started bridge over the same ports
         trace = []
         viol = []
-        expected_running = False
+        owed = 0  # callbacks the bridge owes: broadcasts sent to a port it listened on (a stop cancels what is still owed)
         for step in range(nsteps):
             # action = kind * 8 + port index, a solver variable
             a = A.fresh_int(path, "act%d" % step, 0, len(B_ACTIONS) * 8 - 1)
@@ -112,11 +112,18 @@ def run_c17(case, eng, res):
                     viol.append("stop returned but port(s) %s still listening" % sorted(mine))
                 if br.is_running is not False:
                     viol.append("stop returned but is_running is %r" % br.is_running)
-            if kind == "send":
-                delivered = len(log) - nlog
-                want = 1 if port in before_bound else 0
-                if delivered != want:
-                    viol.append("broadcast to port %d: %d callbacks, expected %d" % (port, delivered, want))
+            # callbacks: never while stopped, never more than owed; what is owed is delivered at the latest after one loop
+            # cycle (a callback handed to loop.call_soon is as good as an immediate one)
+            if kind == "send" and port in before_bound:
+                owed += 1
+            if len(log) > nlog and not before_bound and kind not in ("start", "enter"):
+                viol.append("callback made during '%s' although the bridge was not listening (stop had returned, or start never had)" % kind)
+            if len(log) > owed:
+                viol.append("broadcast to port %s: %d callbacks for %d broadcasts received" % (port, len(log), owed))
+            if kind == "cycle" and before_bound and len(log) < owed:
+                viol.append("a broadcast received while listening was not delivered after a loop cycle")
+            if not mine:
+                owed = len(log)
             if kind == "stop_other" and (raised is not None or mine != before_bound):
                 viol.append("stopping another, never started bridge changed this bridge's sockets (%s -> %s)" % (sorted(before_bound), sorted(mine)))
             if raised is None and kind in ("start", "stop", "enter", "exit", "stop_other"):
@@ -171,7 +178,7 @@ def main_c17(tier):
                 continue
             cases.append({"ports": [20002, 20003], "steps": 5, "first": f})
             cases.append({"ports": [20002, 10002, 20003, 10003], "steps": 4, "first": f})
-        cases.append({"ports": [20002], "steps": 6})
+            cases.append({"ports": [20002], "steps": 6, "first": f})
     results = H.run_cases("harness.lifecycle", "run_c17", cases, timeout_ms=60000)
     nw = H.validate_call_witnesses(results, cmp=lambda exp, o: bool(o.get("violates")) == exp["violates"])
     H.finish("C17", tier, "model_checking", results, t0,
